@@ -439,6 +439,7 @@ Lemma enc_loop_nonpad e sig' args bit st : is_pad e = false ->
   match args with
   | [] => Panic P_EXPECT
   | a :: args' =>
+      if cd_mask_overflow_checked cd && a_reg a && contributes cd e && (bit =? 0) then Err E_TOOMANY else
       let arg_bit := if a_reg a then bit else 0 in
       let '(m0, w0, bit1) :=
         if contributes cd e then
@@ -505,6 +506,7 @@ Proof.
       rewrite enc_loop_nonpad in Henc by assumption. rewrite contributes_nonpad in Henc by assumption.
       assert (Hb2 : bit = 2 ^ k) by (apply Hbit; lia).
       assert (Hpk : 0 < 2 ^ k) by (apply Z.pow_pos_nonneg; lia).
+      replace (bit =? 0) with false in Henc by (symmetry; apply Z.eqb_neq; lia). rewrite !andb_false_r in Henc.
       cbv zeta in Henc.
       destruct (always_imm cd e && negb ((if a_reg a then bit else 0) =? 0)) eqn:Eimm.
       { (* a register in an immediate-only position produces a warning *)
@@ -557,6 +559,7 @@ Proof.
       bind_ok Henc r Hr'. destruct r as [[[[b m'] w'] st''] bit'']. inv Henc. eapply IH; eassumption.
     + rewrite enc_loop_nonpad in Henc by assumption. destruct args as [|a args']; [discriminate|].
       cbn [existsb] in Hr. apply orb_false_iff in Hr. destruct Hr as [Hra Hr]. rewrite Hra in Henc.
+      rewrite andb_false_r in Henc. cbn [andb] in Henc.
       cbv zeta in Henc. cbn [Z.eqb negb] in Henc. rewrite andb_false_r in Henc.
       destruct (contributes cd e).
       * bind_ok Henc f Hf. destruct f as [b0 st1]. bind_ok Henc r Hr'. destruct r as [[[[b m'] w'] st''] bit''].
@@ -718,7 +721,9 @@ Proof.
   - destruct e as [| | |size| |]; try discriminate. cbn [enc_loop] in Henc.
     destruct (zassoc size (cd_enc_pad cd)); [|discriminate]. bind_ok Henc r Hr. eapply IH; eassumption.
   - destruct args as [|a args']; [discriminate|]. apply andb_split in Ht. destruct Ht as [Hta Ht].
-    rewrite enc_loop_nonpad in Henc by assumption. cbv zeta in Henc.
+    rewrite enc_loop_nonpad in Henc by assumption.
+    destruct (cd_mask_overflow_checked cd && a_reg a && contributes cd e && (bit =? 0)); [discriminate|].
+    cbv zeta in Henc.
     destruct (if contributes cd e
               then if always_imm cd e && negb ((if a_reg a then bit else 0) =? 0)
                    then (0, [W_IMMREG], (bit * 2) mod 2 ^ cd_mask_bits cd)
